@@ -11,7 +11,10 @@ FEATURES = [{'rec'}, {'gen'}, {'gen', 'rec'}, {'co'}, {'gen', 'co', 'rec', 'mutu
 
 
 def run(tier, seed):
-    return e1common.run_property(PROP, MODULE, THEOREMS, tier, seed, 160, 30000, FEATURES, 'hits')
+    res = e1common.run_property(PROP, MODULE, THEOREMS, tier, seed, 160, 30000, FEATURES, 'hits')
+    # the same property with the programs spread over real threads (shared profiler): hits only
+    res2 = e1common.run_property(PROP, MODULE, THEOREMS, tier, seed + 1, 40, 3000, [{'gen'}, set(), {'rec'}], 'hits', threads=True, ticks=(0,))
+    return e1common.merge_results(res, res2, 'threaded_part')
 
 
 def replay(path):
